@@ -2,6 +2,7 @@ import Qentem.Driver.Proto
 import Qentem.Model.Seq
 import Qentem.Model.Mem
 import Qentem.Model.SeqLedger
+import Qentem.Model.SeqTree
 /-!
 Driver for C14.  One line carries a whole test program (the table of objects lives for one line):
 
@@ -12,6 +13,7 @@ Driver for C14.  One line carries a whole test program (the table of objects liv
   seq-…-spec <…> <op;op;…>              the plain `List` specification of the same program (S3 oracle)
   seqmem copy|zero <simd> <shift> <size> <seed>     `Memory::Copy` / `SetToZero` model; digest of the result
   seqled-array i <ops> | seqled-string <w> <ops> | seqled-stream <w> <x|s> <ops>
+  seqtree <op;op;…>                      Array<Node> with `Node = {id, tag, kids : Array<Node>}` (value semantics)
                                          C16: the allocation trace (`a<id>:<bytes>`, `f<id>`) the program emits
 
 Output: the dump of the three registers after every step, steps joined by `|`.
@@ -243,6 +245,50 @@ def showTrace (t : List Qentem.Ledger.Ev) : String :=
 def width? (s : String) : Option Nat :=
   if s == "1" then some 1 else if s == "2" then some 2 else if s == "4" then some 4 else none
 
+/-! ### Array of a recursive owning item type (`seqtree <op;op;…>`, the program syntax of arraytree_harness.cpp) -/
+open Qentem.SeqTree in
+partial def dumpNode (n : Node) : String :=
+  toString n.id ++ (if n.tag != defaultTag then "!tag" ++ toString n.tag else "") ++
+    (if n.kids.isEmpty then "" else "(" ++ " ".intercalate (n.kids.map dumpNode) ++ ")")
+
+def parsePath (s : String) : Option (List Nat) :=
+  if s == "" || s == "-" then some [] else (s.splitOn ".").mapM (·.toNat?)
+
+open Qentem.SeqTree in
+def parseTreeOp (o : String) : Option TreeOp :=
+  let k := o.take 1 |>.toString
+  let rest := o.drop 1 |>.toString
+  if k == "n" then
+    match rest.splitOn ":" with
+    | [p, i] => do some (.new (← parsePath p) (← i.toNat?))
+    | _ => none
+  else if k == "c" || k == "m" then
+    match rest.splitOn "=" with
+    | [d, sr] => do
+      let d ← parsePath d
+      let sr ← parsePath sr
+      some (if k == "c" then .copy d sr else .move d sr)
+    | _ => none
+  else if k == "r" then (parsePath rest).map .reset
+  else if k == "z" || k == "v" then
+    match rest.splitOn ":" with
+    | [p, n] => do
+      let p ← parsePath p
+      let n ← n.toNat?
+      some (if k == "z" then .resizeInit p n else .reserveInit p n)
+    | _ => none
+  else none
+
+open Qentem.SeqTree in
+def runTreeLine (prog : String) : String :=
+  match ((prog.splitOn ";").filter (· != "")).mapM parseTreeOp with
+  | none => "bad-op"
+  | some ops =>
+    match runTree ops rootInit with
+    | none => "bad-path"
+    | some [] => "-"
+    | some l => "|".intercalate (l.map dumpNode)
+
 def orBad : Option String → String
   | some s => s
   | none => "bad-op"
@@ -261,7 +307,9 @@ def handle (op : String) (args : List String) : String :=
   | "seq-view", [_w, ops] => orBad ((parseOps parseSv ops).map runSv)
   | "seq-view-spec", [_w, ops] => orBad ((parseOps parseSv ops).map runSvSpec)
   | "seqled-array", [k, ops] =>
-    if k == "i" then orBad ((parseOps parseArr ops).map fun o => showTrace (SeqLedger.arrTrace 4 o)) else "bad-op"
+    if k == "i" then orBad ((parseOps parseArr ops).map fun o => showTrace (SeqLedger.arrTrace 4 o))
+    else if k == "s" then orBad ((parseOps parseArr ops).map fun o => showTrace (SeqLedger.arrOwnTrace o))
+    else "bad-op"
   | "seqled-string", [w, ops] =>
     orBad (do let w ← width? w; let o ← parseOps parseStr ops; some (showTrace (SeqLedger.strTrace w o)))
   | "seqled-stream", [w, p, ops] =>
@@ -270,6 +318,7 @@ def handle (op : String) (args : List String) : String :=
       let o ← parseOps parseSs ops
       if p == "x" then some (showTrace (SeqLedger.ssTrace policyExact w o))
       else if p == "s" then some (showTrace (SeqLedger.ssTrace policyStd w o)) else none)
+  | "seqtree", [prog] => runTreeLine prog
   | "seqmem", [what, simd, shift, size, seed] =>
     orBad (do
       let b ← parseBool simd
